@@ -35,7 +35,6 @@ import (
 	"github.com/aergoio/aergo-lib/db"
 	"github.com/aergoio/aergo/v2/contract"
 	"github.com/aergoio/aergo/v2/contract/system"
-	"github.com/aergoio/aergo/v2/internal/enc/base58"
 	"github.com/aergoio/aergo/v2/internal/enc/proto"
 	"github.com/aergoio/aergo/v2/state"
 	"github.com/aergoio/aergo/v2/state/statedb"
@@ -58,12 +57,21 @@ var (
 	encB   = types.EncodeAddress(addrB)
 	encU   = types.EncodeAddress(addrU)
 	encN   = types.EncodeAddress(addrN)
-	peerID = base58.Encode(bytes.Repeat([]byte{7}, 39))
+	peerID = "16Uiu2HAmBDcLEjBYeEnGU2qDD1KdpEdwDBtN7gqXzNZbHXo8Q841" // a well-formed libp2p peer id
 	aergo  = types.NewAmount(1, types.Aergo)
 )
 
 // accounts whose state is part of every digest whether or not the context has loaded them
 var actors = [][]byte{addrA, addrB, addrU, addrN, []byte(types.AergoSystem), []byte(types.AergoName)}
+
+var actorName = func() map[string]string {
+	m := map[string]string{}
+	for i, n := range []string{"A", "B", "U", "N", "aergo.system", "aergo.name"} {
+		aid := types.ToAccountID(actors[i])
+		m[fmt.Sprintf("%x", aid[:6])] = n
+	}
+	return m
+}()
 
 const (
 	stakeBlock = 1
@@ -150,7 +158,7 @@ func buildWorld(name string, ver int32) *world {
 	{
 		sys, err := state.GetAccountState([]byte(types.AergoSystem), sdb)
 		must(err)
-		scs, err := statedb.OpenContractState(sys.ID(), sys.State(), sdb)
+		scs, err := statedb.OpenContractState([]byte(types.AergoSystem), sys.State(), sdb)
 		must(err)
 		system.InitSystemParams(scs, 3)
 		must(system.InitVotingPowerRank(scs))
@@ -169,6 +177,16 @@ func buildWorld(name string, ver int32) *world {
 	}
 	_ = bs
 	w.root0 = append([]byte{}, sdb.GetRoot()...)
+	if traceOn {
+		s2 := statedb.NewStateDB(w.store, w.root0, false)
+		scs, err := statedb.GetSystemAccountState(s2)
+		must(err)
+		st, err := system.GetStaking(scs, addrA)
+		fmt.Fprintf(os.Stderr, "world: staking of A = %v (%v) sysroot=%x\n", st.GetAmountBigInt(), err, scs.StorageRoot)
+		scs1, _ := statedb.GetSystemAccountState(sdb)
+		st, err = system.GetStaking(scs1, addrA)
+		fmt.Fprintf(os.Stderr, "world(same sdb): staking of A = %v (%v) sysroot=%x\n", st.GetAmountBigInt(), err, scs1.StorageRoot)
+	}
 	w.snap = db.VerifHandleSnapshot(w.store)
 	w.vprDirty = true
 	w.pristine = map[string][2]string{}
@@ -269,6 +287,8 @@ var govShapes = [][2]string{
 	{"S", "10000 aergo"}, {"U", "10000 aergo"}, {"V", `["` + peerID + `"]`}, {"D", `["BPCOUNT","3"]`},
 	{"S", "1"}, {"S", "x1"}, {"U", "1 aergo"}, {"V", "bad"},
 }
+
+var traceOn = os.Getenv("C20_TRACE") != ""
 
 var cbs []*callback
 var cbByName = map[string]*callback{}
@@ -423,6 +443,7 @@ type step struct {
 	Panic   string   `json:"panic,omitempty"`
 	Changed []string `json:"changed,omitempty"`
 	NV      int32    `json:"nv"`
+	Msg     string   `json:"msg,omitempty"`
 }
 
 type frame struct {
@@ -452,7 +473,16 @@ func (r *runner) violation(sig, msg string) {
 }
 
 func snapshot(ctx *contract.VerifC20Ctx, w *world) map[string]string {
-	d := ctx.Digest(actors, w.pristine)
+	raw := ctx.Digest(actors, w.pristine)
+	d := make(map[string]string, len(raw)+1)
+	for k, v := range raw {
+		if i := strings.IndexByte(k, '['); i >= 0 {
+			if nm, ok := actorName[k[i+1:len(k)-1]]; ok {
+				k = k[:i+1] + nm + "]"
+			}
+		}
+		d[k] = v
+	}
 	d["store"] = fmt.Sprintf("durable writes: %d", db.VerifJournalLen())
 	return d
 }
@@ -591,7 +621,16 @@ func (r *runner) raw(L *fakec.LState, pos int, name string, args []int, inner fu
 		failed, msg = true, "panic: "+pan
 		r.notes["panics"]++
 	}
-	st := step{Op: label, Pos: pos, RO: ro, Err: failed, Panic: pan, Changed: diff(pre, post), NV: ctx.NestedView()}
+	st := step{Op: label, Pos: pos, RO: ro, Err: failed, Panic: pan, Changed: diff(pre, post), NV: ctx.NestedView(), Msg: msg}
+	if traceOn {
+		for _, o := range out {
+			if p, ok := o.Interface().(*fakec.Char); ok {
+				st.Msg += fmt.Sprintf(" | %q", fakec.GoString(p))
+			} else if o.CanInt() {
+				st.Msg += fmt.Sprintf(" | %d", o.Int())
+			}
+		}
+	}
 	r.steps = append(r.steps, st)
 	if name == "luaGovernance" && (!failed || len(st.Changed) > 0) {
 		r.w.vprDirty = true // the process-global voting power rank may have been updated
@@ -990,6 +1029,12 @@ func doCase(w *world, c caseT) (viol, sigs []string, st caseStats, notes map[str
 	for _, m := range modes {
 		res, v, s, n := runMode(w, m, c)
 		results[m.name] = res
+		if os.Getenv("C20_TRACE") != "" {
+			fmt.Fprintf(os.Stderr, "--- mode %s entry error %q\n", m.name, res.entryEr)
+			for _, s := range res.steps {
+				fmt.Fprintf(os.Stderr, "    %-40s ro=%-5v nv=%d err=%-5v changed=%v %s\n", s.Op, s.RO, s.NV, s.Err, s.Changed, s.Msg)
+			}
+		}
 		viol = append(viol, v...)
 		sigs = append(sigs, s...)
 		for k, x := range n {
@@ -1154,7 +1199,7 @@ func run(ctx *xplor.Ctx) {
 		}
 	}
 
-	full, small := 0, 2
+	full, small := 0, 1
 	if ctx.Tier == "thorough" {
 		small = 3
 	}
@@ -1175,10 +1220,7 @@ func run(ctx *xplor.Ctx) {
 		// 2. sequences of two: first op under pcall (so that the second runs
 		// whatever the first returned), over the reduced alphabets
 		red := allOps(small)
-		first := red
-		if ctx.Tier != "thorough" {
-			first = allOps(1)
-		}
+		first := allOps(1)
 		for _, a := range first {
 			for _, b := range red {
 				if n++; !ctx.Mine(n) || ctx.Expired() {
